@@ -278,14 +278,17 @@ class Simulation_Investigation():
             ## this can happen with contagions on a bipartite
             ## graph where a subset of nodes do not have an
             ## infection status
-            if node_statuses[0] not in delta:
-                continue
-
+            ## a status that is not among the possible (reported) statuses is
+            ## simply not counted; the node still counts when it enters or
+            ## leaves a reported status.
             times.add(tmin)
-            delta[node_statuses[0]][tmin]+=1
+            if node_statuses[0] in delta:
+                delta[node_statuses[0]][tmin]+=1
             for new_status, old_status, time in zip(node_statuses[1:], node_statuses[:-1], node_times[1:]):
-                delta[new_status][time] = delta[new_status][time]+1
-                delta[old_status][time] = delta[old_status][time]-1
+                if new_status in delta:
+                    delta[new_status][time] = delta[new_status][time]+1
+                if old_status in delta:
+                    delta[old_status][time] = delta[old_status][time]-1
                 times.add(time)
         t = np.array(sorted(list(times)))
         tmin = t[0]
